@@ -369,16 +369,54 @@ def run(ctx):
         rs = ctx.rule("R6", "let names avoid user symbols; nested quantifier bodies get a fresh printer")
         ci = repo.cls(DAGP)
         f = ci.own_func("_new_symbol")
-        ok1 = False
-        if f is not None:
-            loops = [n for n in ast.walk(f) if isinstance(n, ast.While)]
-            if loops and norm(loops[0].test) == "self.template % self.name_seed in self.names" and \
-                    "self.name_seed += 1" in norm(loops[0]):
-                ok1 = True
-        if ok1:
-            rs.ok({"_new_symbol": "skips candidates present in self.names"})
+        if f is None:
+            ctx.error("R6", "SmtDagPrinter._new_symbol vanished")
         else:
-            rs.unrec("_new_symbol: clash-avoidance loop not in the recognised form")
+            # Every candidate name that is returned must have been tested against self.names with a
+            # negative outcome, and the seed must not move between that test and the use: in the CFG
+            # without the false-edges of membership tests the statement computing the result must
+            # be unreachable from the entry and from every seed update.
+            cfg = CFG(f)
+            def is_member_test(n):
+                return n.kind == "test" and isinstance(n.ast, ast.Compare) and len(n.ast.ops) == 1 and \
+                    isinstance(n.ast.ops[0], (ast.In, ast.NotIn)) and "self.names" in norm(n.ast.comparators[0]) and \
+                    "name_seed" in norm(n.ast.left)
+            tests = [n for n in cfg.nodes if is_member_test(n)]
+            uses = [n for n in cfg.nodes if n.kind == "stmt" and isinstance(n.ast, ast.Assign) and
+                    "name_seed" in norm(n.ast.value) and "template" in norm(n.ast.value)]
+            incs = [n for n in cfg.nodes if n.kind == "stmt" and isinstance(n.ast, ast.AugAssign) and "name_seed" in norm(n.ast.target)]
+            if not tests or not uses:
+                rs.unrec("_new_symbol: membership test / candidate computation not recognised")
+            else:
+                def pruned_reach(src):
+                    seen, st = set(), [src]
+                    while st:
+                        x = st.pop()
+                        if x in seen:
+                            continue
+                        seen.add(x)
+                        for (y, lab) in cfg.succ[x]:
+                            nd = cfg.nodes[x]
+                            if is_member_test(nd):
+                                free = "F" if isinstance(nd.ast.ops[0], ast.In) else "T"
+                                if lab == free:
+                                    continue      # the only way out that certifies the candidate
+                            st.append(y)
+                    return seen
+                bad = None
+                r0 = pruned_reach(cfg.entry.id)
+                if any(u.id in r0 for u in uses):
+                    bad = "a candidate can be used without a negative membership test"
+                for i in incs:
+                    # updates after the use (the final seed advance) are fine; updates before it must be re-tested
+                    if any(u.id in pruned_reach(i.id) for u in uses):
+                        bad = "after advancing the seed the new candidate is used without being tested (`if` instead of a loop)"
+                if bad:
+                    ctx.finding(rs, "%s._new_symbol|untested-candidate" % DAGP,
+                                "let-variable names: %s; a user symbol named like the next candidate (.def_N) is captured "
+                                "by the let binder" % bad, method_loc(repo, DAGP, f))
+                else:
+                    rs.ok({"_new_symbol": "every returned candidate was tested not to be in self.names"})
         f = ci.own_func("printer")
         if f is not None and "self.names = set((quote(x.symbol_name()) for x in f.get_free_variables()))" in norm(f):
             rs.ok({"printer": "names initialised from the quoted free variables of the printed term"})
